@@ -38,6 +38,9 @@ def run(ctx):
                                                  'complete': 'C11-e', 'gate': 'C11-e'})
         dlmain.check_open_flags(ck, prog, config, 'C11-a')
         c09.scan_reads(ck, prog, config, 'C11-b', 'C11-b')
+        # the rescan takes a short count for the end of the file: the read wrapper must make the two coincide
+        from ..rules import shorteof
+        shorteof.check_short_is_eof(ck, prog, config, 'C11-b')
         c09.scan_loop_exits(ck, prog, config, 'C11-d')
         c09.verdict_store(ck, prog, config, 'C11-d')
         n = dlrules.valid_inventory(ck, prog, config, 'C11-b')
